@@ -8,7 +8,7 @@ import functools
 import inspect
 
 # from inspect import
-from dataclasses import dataclass
+from dataclasses import dataclass, replace
 from logging import getLogger
 
 import docstring_parser as dp
@@ -74,7 +74,9 @@ def get_attribute_docstring(
         if not attribute_docstring:
             continue
         if not created_docstring:
-            created_docstring = attribute_docstring
+            # NOTE: copy: the object returned by `_get_attribute_docstring` lives in its lru_cache and
+            # must not be updated in place below.
+            created_docstring = replace(attribute_docstring)
             if not accumulate_from_bases:
                 # We found a definition for that field in that class, so return it directly.
                 return created_docstring
